@@ -391,15 +391,16 @@ def run(ctx):
         "resolution_delta on month units is Calendar.addm (integer month shift); its agreement with the float-based "
         "add_months on month-aligned dates 1970-2100 is theorem C12_add_months_agrees_with_Z_calendar of the C12 check",
         "the closed-form theorems (aggregate = agg_ref, no fuel exhaustion) hold for day/week units without bound and for "
-        "month units with a month-end origin of 1970-2100 and dates in month_end(q-1) < d <= month_end(1571-q); cases outside "
-        "that scope are covered by the correspondence only",
+        "month units with a month-end origin of any year >= 1 (Z-model; Proofs/CalendarP.v); the Z-model equals the source's "
+        "float add_months only where the C12 bridge says so (1970-2100), elsewhere the per-run correspondence is the tie; "
+        "non-month-end origins with month units are covered by the correspondence only",
         "incremental input goes through Model/Basis.v (property C04) with the documented carry field earned_premium",
         "unit spellings are mapped to unit tags by the harness's own table (the substring dispatch of standardize_resolution "
         "is checked by C12's probing)",
         "cell values are ints or dyadic floats; Python set/dict iteration order is not modelled (unordered comparison)",
     ]
     ctx.audit_tree(["Model/Aggregate.v", "Model/Summarize.v", "Proofs/Aggregate.v", "Proofs/AggregateGrid.v",
-                    "Proofs/AggregateInst.v", "Proofs/AggregateRef.v", "Props/C08.v", "GenProps/C08_rules.v"])
+                    "Proofs/AggregateInst.v", "Proofs/AggregateRef.v", "Proofs/CalendarP.v", "Props/C08.v", "GenProps/C08_rules.v"])
     S.prove_static_local(ctx, "Props/C08.v")
     table, nl, gen_ok, props_ok = S.rules_step(ctx, "C08_rules.v")
     if table is not None:
